@@ -449,6 +449,15 @@ func VH_C03_BackrefZero() {
 	vhC03In(vhDefFence(), in)
 }
 
+func VH_C03_BackrefEscaped() {
+	n := vChoose("len", 5)
+	in := vString("in", n)
+	for i := 0; i < n; i++ {
+		vAssume(vOr(vOr(in[i] == 'a', in[i] == '2'), in[i] == '\\'))
+	}
+	vhC03In(vhDefBackrefEscaped(), in)
+}
+
 // generated definitions (zz_verif_lexgen.go)
 const vhGenLexDefs = 100 // @tier quick=100 thorough=400
 
